@@ -91,7 +91,11 @@ class GraphNode(HyperNode):
         # Core HyperNode attributes
         self.name = resolved_name
         self.inputs = graph.inputs.all
-        self.outputs = graph.selected if graph.selected is not None else graph.outputs
+        # Ordering signals (emit-only names) stay inside the nested graph: its result never
+        # carries them, so the wrapper does not produce them either
+        emit_only = graph._get_emit_only_outputs()
+        exposed = graph.selected if graph.selected is not None else graph.outputs
+        self.outputs = tuple(o for o in exposed if o not in emit_only)
 
     @property
     def graph(self) -> "Graph":
